@@ -27,6 +27,12 @@ Tree(id) ==
     [] id = "pkgdir" -> {Di(<<>>, "pkg"), Fi(<<>>, "a")}
     [] id = "dir3"   -> {Di(<<>>, "a"), Di(<<"a">>, "a")}
     [] id = "full6"  -> {Di(<<>>, "a"), Fi(<<"a">>, "a"), Fi(<<"a">>, "b"), Di(<<>>, "b"), Fi(<<"b">>, "a")}
+    \* import chains of length 3: pkg.c.a.b.f through `import pkg.c.a; import a.b; import b.f;`, with and
+    \* without modules a / b next to pkg.roto (same names reachable from the enclosing scopes)
+    [] id = "c3full" -> {Di(<<>>, "c"), Di(<<"c">>, "a"), Fi(<<"c", "a">>, "b"), Fi(<<>>, "b"), Di(<<>>, "a"), Fi(<<"a">>, "b")}
+    [] id = "c3nob"  -> {Di(<<>>, "c"), Di(<<"c">>, "a"), Fi(<<"c", "a">>, "b"), Di(<<>>, "a"), Fi(<<"a">>, "b")}
+    [] id = "c3noa"  -> {Di(<<>>, "c"), Di(<<"c">>, "a"), Fi(<<"c", "a">>, "b"), Fi(<<>>, "b")}
+    [] id = "c3none" -> {Di(<<>>, "c"), Di(<<"c">>, "a"), Fi(<<"c", "a">>, "b")}
     [] id = "full7"  -> {Di(<<>>, "a"), Fi(<<"a">>, "a"), Di(<<"a">>, "b"), Di(<<>>, "b"), Fi(<<"b">>, "a"), Fi(<<"b">>, "b")}
 
 DiscUniverse ==
@@ -48,14 +54,18 @@ SumW(S) == IF S = {} THEN 0 ELSE LET x == CHOOSE x \in S : TRUE IN W(x) + SumW(S
 InSlice(b) == \/ b.P = Modules(b.files)
               \/ ((SumW(b.P) * 7 + W(b.site) * 13 + Cardinality(b.files)) % NSlices) = Slice
 
+IsChainTree(t) == t \in {"c3full", "c3nob", "c3noa", "c3none"}
+
 ResBases ==
   {b \in UNION {{[tree |-> t, files |-> Tree(t), P |-> P, site |-> s, gm |-> gm] :
                    P \in SUBSET Modules(Tree(t)), s \in Modules(Tree(t)), gm \in GModes} : t \in TreeIds} :
      /\ InSlice(b)
      \* bigger trees: items nearly everywhere (many same-named candidates) or nearly nowhere
-     /\ \/ Cardinality(Modules(b.files)) <= 4
-        \/ Cardinality(b.P) <= 1
-        \/ Cardinality(b.P) >= Cardinality(Modules(b.files)) - 2}
+     /\ IF IsChainTree(b.tree)
+        THEN b.P \subseteq {<<>>, <<"b">>, <<"a", "b">>, <<"c", "a", "b">>} /\ b.site \in {<<>>, <<"b">>, <<"c">>}
+        ELSE \/ Cardinality(Modules(b.files)) <= 4
+             \/ Cardinality(b.P) <= 1
+             \/ Cardinality(b.P) >= Cardinality(Modules(b.files)) - 2}
 
 DiscBases ==
   IF Disc = "none" THEN {}
@@ -155,13 +165,28 @@ FamOther(b) ==
   \cup {Pr("other", <<Imp(M(Desig(b, mp).p), Abs(x), 0)>>, {}, 1, mp \o <<Last(x), "f">>) :
       mp \in {q \in GoodMod(b) : Desig(b, q).p # b.site}, x \in Modules(b.files) \ {<<>>}}
 
+(* chains of three (and two) dependent imports in ONE scope, in every order: Z introduces a, X = a.b  *)
+(* needs Z, Y = b.f needs X. The imports of a scope win over same-named modules / items of the        *)
+(* enclosing scopes whatever their order (the resolution is order independent).                      *)
+Perm3 == {<<"chain3:ZXY", <<1, 2, 3>>>>, <<"chain3:ZYX", <<1, 3, 2>>>>, <<"chain3:XZY", <<2, 1, 3>>>>,
+          <<"chain3:XYZ", <<2, 3, 1>>>>, <<"chain3:YZX", <<3, 1, 2>>>>, <<"chain3:YXZ", <<3, 2, 1>>>>}
+Chain3El(b) == {<< <<"pkg", "c", "a">>, <<"a", "b">>, <<"b", "f">> >>}
+               \cup (IF b.site = <<>> THEN {<< <<"c", "a">>, <<"a", "b">>, <<"b", "f">> >>} ELSE {})
+FamChain3(b) ==
+  {Pr(pn[1], <<Imp(sc, el[pn[2][1]], 0), Imp(sc, el[pn[2][2]], 0), Imp(sc, el[pn[2][3]], 0)>>, {}, 3, rf) :
+      pn \in Perm3, sc \in {M(b.site), B(1), B(2)}, rf \in {<<"f">>, <<"b", "f">>}, el \in Chain3El(b)}
+  \cup {Pr("chain2:ZY", <<Imp(sc, <<"pkg", "c", "a", "b">>, 0), Imp(sc, <<"b", "f">>, 0)>>, {}, 3, rf) :
+      sc \in {M(b.site), B(1), B(2)}, rf \in {<<"f">>, <<"b", "f">>}}
+  \cup {Pr("chain2:YZ", <<Imp(sc, <<"b", "f">>, 0), Imp(sc, <<"pkg", "c", "a", "b">>, 0)>>, {}, 3, rf) :
+      sc \in {M(b.site), B(1), B(2)}, rf \in {<<"f">>, <<"b", "f">>}}
+
 FamDisc(b) ==
   {Pr("disc", <<>>, {}, 1, Abs(Append(mp, "f"))) : mp \in FileMods(b.files) \cup {<<>>}}
 
 Fam(f, b) ==
   CASE f = "path" -> FamPath(b) [] f = "imp1" -> FamImp1(b) [] f = "list" -> FamList(b)
     [] f = "modimp" -> FamModImp(b) [] f = "chain" -> FamChain(b) [] f = "shadow" -> FamShadow(b)
-    [] f = "two" -> FamTwo(b) [] f = "other" -> FamOther(b)
+    [] f = "two" -> FamTwo(b) [] f = "other" -> FamOther(b) [] f = "chain3" -> FamChain3(b)
 
 Probes(b) == IF b.tree = "disc" THEN FamDisc(b) ELSE UNION {Fam(f, b) : f \in Families}
 
@@ -179,7 +204,7 @@ Case(b, pr) ==
   IN  [fam |-> pr.fam, tree |-> b.tree, files |-> c.files, mods |-> c.mods, items |-> c.items,
        site |-> c.site, imps |-> c.imps, locals |-> c.locals, depth |-> c.depth, ref |-> c.ref,
        exp |-> e, alts |-> IF e.k = "unspec" \/ (a.super = e /\ a.seq = e /\ a.pkg = e /\ a.impl = e) THEN <<>> ELSE <<a>>,
-       exports |-> Exports(c), rule |-> Rule(c)]
+       exports |-> Exports(c), rule |-> Rule(c), outer |-> OuterNamesakes(c)]
 
 Emit == (probe.fam # "none") => PrintT(<<"REPLAY", ToJson(Case(base, probe))>>)
 =============================================================================
